@@ -37,7 +37,7 @@ type family struct {
 }
 
 var depths = []int{1000, 4000, 16000, 64000}
-var shallow = []int{500, 2000, 8000} // families whose cost is quadratic on the current tree: kept small
+var shallow = []int{250, 1000, 4000} // families whose cost is quadratic on the current tree: kept small
 var sizes = []int{1000, 4000, 16000, 64000, 256000, 1024000}
 
 func rep(s string, n int) string { return strings.Repeat(s, n) }
